@@ -104,6 +104,7 @@ unsigned char sk_pattern(int tag, long off)
 }
 
 /* ---- fault injection ---- */
+#define FK_WAITPID_ 10
 static int fault(int kind)
 {
   if (K && sk_cur == 0 && sk_yield_hook && K->in_api &&
@@ -115,7 +116,11 @@ static int fault(int kind)
     /* script-wide fault plan: the g-th fault point of the whole script (any API call, parent side) fails once,
        with an errno plausible for that kind of call */
     static const int plausible[21] = { 0, EMFILE, EINTR, EINTR, EINTR, EINTR, EINVAL, EMFILE, EINTR, EAGAIN, EINTR, EPERM, ENOEXEC, EACCES, ENOENT, EINVAL, EFAULT, EINVAL, EINVAL, EINVAL, ENOMEM };
-    if (++K->gcount == K->gfault_index) { K->gfault_kind = kind; K->fault_hits++; return plausible[kind < 21 ? kind : 0] ? plausible[kind < 21 ? kind : 0] : EIO; }
+    if (++K->gcount == K->gfault_index) {
+      K->gfault_kind = kind; K->fault_hits++;
+      if (kind == FK_WAITPID_ && (K->gfault_index & 1) == 0) return ECHILD;   /* (the kernel reaped the child itself - a caller that ignores SIGCHLD - every other time) */
+      return plausible[kind < 21 ? kind : 0] ? plausible[kind < 21 ? kind : 0] : EIO;
+    }
   } else if (side == 0) K->gcount++;
   int n = ++K->callno[side];
   sk_logev(LK_OTHER, kind, n, 0, 0);
